@@ -29,6 +29,7 @@ import (
 	"errors"
 	"fmt"
 	"os"
+	"reflect"
 	"sort"
 	"strconv"
 	"strings"
@@ -207,9 +208,21 @@ type wRecorder struct {
 	mu            sync.Mutex
 	step          int
 	writes        []wWrite
+	// fault script: Status().Update of these resources is rejected every time (persistent API / webhook rejection)
+	reject   map[wKey]bool
+	rejected int
+}
+
+type wKey struct {
+	Kind int
+	NN   types.NamespacedName
 }
 
 func (c *wRecorder) Get(_ context.Context, key types.NamespacedName, obj client.Object, _ ...client.GetOption) error {
+	// like a real Get, overwrite whatever a previous attempt left in obj: the stored object has no status
+	if v := reflect.ValueOf(obj); v.Kind() == reflect.Ptr && !v.IsNil() {
+		v.Elem().Set(reflect.Zero(v.Elem().Type()))
+	}
 	obj.SetNamespace(key.Namespace)
 	obj.SetName(key.Name)
 	return nil
@@ -231,6 +244,12 @@ func (s wStatusWriter) Update(ctx context.Context, obj client.Object, _ ...clien
 	call := -1
 	if v, ok := ctx.Value(opKey{}).(int); ok {
 		call = v
+	}
+	if k := (wKey{wKindID(p.KindOf(obj)), client.ObjectKeyFromObject(obj)}); s.c.reject[k] {
+		s.c.mu.Lock()
+		s.c.rejected++
+		s.c.mu.Unlock()
+		return errInjected
 	}
 	s.c.mu.Lock()
 	s.c.writes = append(s.c.writes, wWrite{call: call, step: s.c.step, req: wReq{
@@ -554,9 +573,19 @@ type wStep struct {
 }
 
 // RunWiring generates and runs one case.
-func runWiring(r *rng.R, maxSteps int) (res wResult) {
+func runWiring(r *rng.R, maxSteps int, faults bool) (res wResult) {
 	w := genWorld(r)
 	rec := &wRecorder{}
+	if faults {
+		// one resource whose status the API server keeps rejecting: every Updater.Update call that contains it spends the
+		// whole backoff (~1.5-2 s) on it, so these cases are few and short
+		cands := []wKey{{0, types.NamespacedName{Name: p.DefaultClass}}, {2, types.NamespacedName{Namespace: "default", Name: "cafe"}},
+			{3, types.NamespacedName{Namespace: "default", Name: "cafe"}}, {0, types.NamespacedName{Name: p.DefaultClass}}}
+		rec.reject = map[wKey]bool{rng.Pick(r, cands): true}
+		if maxSteps > 3 {
+			maxSteps = 3
+		}
+	}
 	lu := status.NewLeaderAwareGroupUpdater(status.NewUpdater(rec, logr.Discard()))
 	run := runnables.NewEnableAfterBecameLeader(lu.Enable)
 	groups := static.VerifC09GroupNames()
@@ -566,8 +595,11 @@ func runWiring(r *rng.R, maxSteps int) (res wResult) {
 
 	nSteps := r.Range(2, maxSteps)
 	enableAt := -1 // the Enable is its own step, before batch step number enableAt
-	if !r.Chance(1, 8) {
+	if !r.Chance(1, 8) || faults {
 		enableAt = r.Range(1, nSteps)
+	}
+	if faults && enableAt < nSteps-1 {
+		nSteps = enableAt + 1 // at most two batches after the election
 	}
 	var steps []*wStep
 	enableCalls := map[int]int{} // step -> call index used for Enable's context
@@ -1012,7 +1044,13 @@ func renderWiring(steps []*wStep, spy *wSpy, rec *wRecorder, enableCalls map[int
 		js = append(js, j)
 	}
 	stats["flush_same_nsname_across_kinds"] = sameNsName
-	jb, _ := json.Marshal(map[string]any{"steps": js})
+	bad := [][3]int{}
+	for k := range rec.reject {
+		q := t.quad(wReq{Kind: k.Kind, NN: k.NN})
+		bad = append(bad, [3]int{q[0], q[1], q[2]})
+	}
+	stats["rejected_attempts"] = rec.rejected
+	jb, _ := json.Marshal(map[string]any{"steps": js, "bad": bad})
 	res.judge = string(jb)
 
 	// ---- dictionary for humans
@@ -1043,7 +1081,7 @@ func renderWiring(steps []*wStep, spy *wSpy, rec *wRecorder, enableCalls map[int
 
 var _ = metav1.Now
 
-func runWiringCases(seed uint64, n, maxSteps int) int {
+func runWiringCases(seed uint64, n, maxSteps int, faults bool) int {
 	r := rng.New(seed)
 	w := bufio.NewWriter(os.Stdout)
 	defer w.Flush()
@@ -1057,12 +1095,12 @@ func runWiringCases(seed uint64, n, maxSteps int) int {
 					ch <- wResult{inconclusive: fmt.Sprintf("harness panic: %v", pn)}
 				}
 			}()
-			ch <- runWiring(cr, maxSteps)
+			ch <- runWiring(cr, maxSteps, faults)
 		}()
 		var res wResult
 		select {
 		case res = <-ch:
-		case <-time.After(20 * time.Second):
+		case <-time.After(60 * time.Second):
 			res = wResult{inconclusive: "timeout"}
 		}
 		if res.inconclusive != "" {
